@@ -237,5 +237,42 @@ lower-case, nothing compressed) -/
 def rdataCaseCanonical (rrset : List Record) : Bool :=
   rrset.all fun r => canonBytes r.data == some (toBytes r.data)
 
+/-! ### the repaired `TBS::new` (repo-patches/C05-tbs-canonical-order.diff)
+
+Not the code as it is today: this is the model of `TBS::new` *after* the proposed repair — each
+collected record's RDATA is first encoded in canonical form, the encodings are `sort`ed and
+`dedup`ed, and the RRs are emitted from them.  `Proofs/C05Fixed.lean` proves the full-strength
+`tbs_eq_spec` for it. -/
+
+/-- the pre-encoding loop (`record.data.emit(&mut rdata_encoder)?`) -/
+def canonAll : List Record → Option (List Bytes)
+  | [] => some []
+  | r :: rs =>
+    match canonBytes r.data, canonAll rs with
+    | some b, some bs => some (b :: bs)
+    | _, _ => none
+
+/-- `Vec::dedup` : removes consecutive repeated elements -/
+def dedupAdj : List Bytes → List Bytes
+  | [] => []
+  | [x] => [x]
+  | x :: y :: r => if x = y then dedupAdj (y :: r) else x :: dedupAdj (y :: r)
+
+/-- `Vec<u8>: Ord` -/
+def bytesLe (a b : Bytes) : Bool := compare a b != .gt
+
+/-- `TBS::new` after the repair -/
+def tbsFixed (name : Name) (cls : Nat) (i : SigInput) (records : List Record) : Outcome Bytes :=
+  match canonAll (collect name cls i records) with
+  | none => .err
+  | some rds =>
+    let rdatas := dedupAdj (sortStable bytesLe rds)
+    match determineName name i.numLabels with
+    | .ok n =>
+      let out := sigInputEmit i ++ (rdatas.map (emitRR n.toLowercase.wire cls i)).flatten
+      if out.length > MAX_BUF then .err else .ok out
+    | .err => .err
+    | .panic s => .panic s
+
 end Tbs
 end HickoryVerif
